@@ -102,7 +102,7 @@ def generate(tier, seed, ctx):
         for t in range(8 * rep):
             orient = t % 2
             a, b = _pair(rng, -5, 5, orient)
-            deg = rng.randint(0, 12)
+            deg = rng.randint(0, 8 if m == "Trapezoidal" else 12)
             ts = [(c, i, 0, 0) for c, i, _, _ in _rterms(rng, 1, [deg, 0, 0], rng.randint(1, 4))] + [(1.0, deg, 0, 0)]
             p = 0 if t % 4 < 2 else _param(rng, m, deg)
             add("c13.int1 %s %d %s %s %s" % (m, p, hx(a), hx(b), _terms(ts)), cls="poly", orient=orient, pc=p != 0)
